@@ -64,6 +64,7 @@ func init() {
 		c02CloseOnce(c)
 		c02Deadline(c)
 		c02TimeUnits(c)
+		c02LivenessThreshold(c)
 		c02SessionLink(c, "C02/SESSION-LINK")
 		// "no sequence hangs the server": the request/reply plumbing always answers and the
 		// write-queue error callback cannot deadlock against the session goroutine
@@ -1157,5 +1158,146 @@ func c02TimeUnits(c *Ctx) {
 				r.Check(okUse && nuse > 0, "C02/TIME-UNITS", fmt.Sprintf("%s loads %s", fnShort(s.fn), f.Name()), p.Pos(ci.Pos()), "read back as time.Unix(v, 0) or compared with 0", "the loaded value is not (only) used as the seconds argument of time.Unix(v, 0)")
 			}
 		}
+	}
+}
+
+// c02LivenessThreshold (added after the seeded change C02-r3m2 was missed: a de-duplication
+// hoisted `age >= ReadTimeout` and reused it for play sessions, which must be measured against
+// IdleTimeout): the session times out on the UDP liveness check only where, for a recording
+// session, the age of the last packet reached ReadTimeout, and otherwise (play, multicast) the age
+// of the last packet AND the age of the last request both reached IdleTimeout.
+func c02LivenessThreshold(c *Ctx) {
+	p, r := c.P, c.R
+	r.Rule("C02/LIVENESS-THRESHOLD", "the UDP liveness check ends a session with 'timed out' only on a path where, with the state known to be RECORD, the age of the last packet reached ReadTimeout, or else the ages of the last packet and of the last request both reached IdleTimeout (a reading peer that keeps sending RTCP or RTSP keep-alives within IdleTimeout is never expired early)", 1)
+	fn := p.Func("", "ServerSession.runInner")
+	stateF := p.Field("", "ServerSession", "state")
+	lastPkt := p.Field("", "ServerSession", "udpLastPacketTime")
+	lastReq := p.Field("", "ServerSession", "lastRequestTime")
+	if !r.Anchor("C02/LIVENESS-THRESHOLD", "ServerSession.{runInner,state,udpLastPacketTime,lastRequestTime}", fn != nil && stateF != nil && lastPkt != nil && lastReq != nil) {
+		return
+	}
+	states := enumConsts(p, "", "ServerSessionState")
+	recKey := ""
+	for k, n := range states {
+		if n == "ServerSessionStateRecord" {
+			recKey = k
+		}
+	}
+	// what a duration is the age of: follows time.Time.Sub(now, t) to t, and t to a field
+	var ageOf func(v ssa.Value, d int) *types.Var
+	ageOf = func(v ssa.Value, d int) *types.Var {
+		if d > 8 || v == nil {
+			return nil
+		}
+		switch x := v.(type) {
+		case *ssa.Call:
+			for _, a := range x.Call.Args {
+				if f := ageOf(a, d+1); f != nil {
+					return f
+				}
+			}
+			if x.Call.IsInvoke() {
+				return ageOf(x.Call.Value, d+1)
+			}
+		case *ssa.UnOp:
+			if fa, ok := x.X.(*ssa.FieldAddr); ok {
+				f := core.FieldOfAddr(fa)
+				if core.SameField(f, lastPkt) || core.SameField(f, lastReq) {
+					return f
+				}
+			}
+			return ageOf(x.X, d+1)
+		case *ssa.FieldAddr:
+			f := core.FieldOfAddr(x)
+			if core.SameField(f, lastPkt) || core.SameField(f, lastReq) {
+				return f
+			}
+			return ageOf(x.X, d+1)
+		case *ssa.Convert:
+			return ageOf(x.X, d+1)
+		case *ssa.ChangeType:
+			return ageOf(x.X, d+1)
+		case *ssa.Alloc:
+			for _, rr := range *x.Referrers() {
+				if st, ok := rr.(*ssa.Store); ok && st.Addr == ssa.Value(x) {
+					if f := ageOf(st.Val, d+1); f != nil {
+						return f
+					}
+				}
+			}
+		}
+		return nil
+	}
+	const (
+		rec, notRec, pktIdle, pktRead, reqIdle = 1, 2, 4, 8, 16
+	)
+	ff := &factFlow{}
+	ff.inline = func(h *ssa.Function) bool { return h.Pkg == fn.Pkg && !token.IsExported(h.Name()) && len(h.Blocks) <= 12 }
+	ff.onEdge = func(cond ssa.Value, pol bool, res func(ssa.Value) ssa.Value) (uint, uint) {
+		bo, ok := cond.(*ssa.BinOp)
+		if !ok {
+			return 0, 0
+		}
+		if bo.Op == token.EQL || bo.Op == token.NEQ {
+			if core.SameField(fieldOfLoad(bo.X), stateF) {
+				if k, isK := bo.Y.(*ssa.Const); isK && core.ConstKey(k) == recKey {
+					if (bo.Op == token.EQL) == pol {
+						return rec, notRec
+					}
+					return notRec, rec
+				}
+			}
+			return 0, 0
+		}
+		// age >= threshold (or its negation age < threshold on the false edge)
+		reached := bo.Op == token.GEQ && pol || bo.Op == token.LSS && !pol
+		if !reached {
+			return 0, 0
+		}
+		th := core.PathOf(bo.Y)
+		what := ageOf(bo.X, 0)
+		switch {
+		case what == nil:
+		case core.SameField(what, lastPkt) && strings.HasSuffix(th, ".IdleTimeout"):
+			return pktIdle, 0
+		case core.SameField(what, lastPkt) && strings.HasSuffix(th, ".ReadTimeout"):
+			return pktRead, 0
+		case core.SameField(what, lastReq) && strings.HasSuffix(th, ".IdleTimeout"):
+			return reqIdle, 0
+		}
+		return 0, 0
+	}
+	ff.onInstr = func(in ssa.Instruction, res func(ssa.Value) ssa.Value) (uint, uint) {
+		if _, isSel := in.(*ssa.Select); isSel {
+			return 0, rec | notRec | pktIdle | pktRead | reqIdle // a new round of the loop
+		}
+		return 0, 0
+	}
+	n, bad := 0, ""
+	ff.check = func(in ssa.Instruction, state factSet, res func(ssa.Value) ssa.Value) {
+		ret, ok := in.(*ssa.Return)
+		if !ok || in.Parent() != fn || len(ret.Results) != 1 {
+			return
+		}
+		mi, ok := ret.Results[0].(*ssa.MakeInterface)
+		if !ok || !strings.HasSuffix(mi.X.Type().String(), "ErrServerSessionTimedOut") {
+			return
+		}
+		n++
+		for v := range state {
+			okv := v&rec != 0 && v&pktRead != 0 || v&rec == 0 && v&pktIdle != 0 && v&reqIdle != 0
+			if !okv && bad == "" {
+				bad = p.Pos(ret.Pos())
+			}
+		}
+	}
+	ff.run(fn, 0)
+	switch {
+	case n == 0:
+		r.Fail("C02/LIVENESS-THRESHOLD", "ServerSession.runInner times a silent UDP session out", p.Pos(fn.Pos()), "no return of ErrServerSessionTimedOut found in runInner")
+	case bad != "":
+		r.Fail("C02/LIVENESS-THRESHOLD", "ServerSession.runInner times a silent UDP session out", bad, "the session can be declared timed out on a path where the ages were not measured against the timeout of its state (RECORD: last packet vs ReadTimeout; otherwise last packet and last request vs IdleTimeout)")
+	default:
+		r.OK("C02/LIVENESS-THRESHOLD", "ServerSession.runInner times a silent UDP session out", p.Pos(fn.Pos()), "RECORD: last packet >= ReadTimeout; otherwise last packet and last request >= IdleTimeout")
 	}
 }
